@@ -95,9 +95,13 @@ theorem C09_error_no_effect (st : St) (op : Op) (h : (step st op).2.ok = false) 
 theorem C09_hooks_guarded :
     (∀ h ∈ Extracted.commitHooks, h.2 = "guarded") ∧
     (∀ w ∈ Extracted.strayWakes, w.1 = "notifier.go") := by
+  -- (decided on the lists as a whole: the statement does not depend on how many hooks there are, in
+  -- which functions they sit, or in which order the extractor lists them)
+  have h1 : Extracted.commitHooks.all (fun h => h.2 == "guarded") = true := by decide
+  have h2 : Extracted.strayWakes.all (fun w => w.1 == "notifier.go") = true := by decide
   refine ⟨?_, ?_⟩
-  · intro h hh; simp [Extracted.commitHooks] at hh; rcases hh with h | h | h | h | h | h <;> simp [h]
-  · intro w hw; simp [Extracted.strayWakes] at hw; rcases hw with h | h | h | h <;> simp [h]
+  · intro h hh; simpa using List.all_eq_true.mp h1 h hh
+  · intro w hw; simpa using List.all_eq_true.mp h2 w hw
 
 /-- non-vacuity: a pull on a live subscription hit in its second transaction does change the expiry -/
 example :
